@@ -13,7 +13,7 @@ def plan(tier):
             units.append(dict(name='%s-p%d' % (comp, part), src='C05.cpp', compiler=comp, mode='ndebug', opt='-O0',
                               defines=['VF_TIER=%d' % t, 'VF_PART=%d' % part], shards=2))
     # corner products with 8- and 16-bit Narrowest types (the storage ladder below int)
-    for d in ([8, 15] if not t else [1, 7, 8, 9, 15, 16]):
+    for d in ([8, 15] if not t else [1, 7, 8, 9, 15]):
         units.append(dict(name='g++-narrow%d' % d, src='C05.cpp', compiler='g++', mode='ndebug', opt='-O0',
                           defines=['VF_TIER=%d' % t, 'VF_PART=%d' % (3000 + d)], shards=2))
     # elastic_integer op built-in integer (either side)
